@@ -9,7 +9,7 @@ import numpy as np
 
 from ..common import V, samples_of, seed_offset
 
-CONT_TOL = 1e-6
+CONT_TOL = 1e-13  # at the neighbouring floats of p_b (measured 2e-15); plus 20 x the relative distance from p_b
 
 
 def cases(tier, seed):
@@ -60,10 +60,11 @@ def evaluate(case):
         at = float(f(pb))
         for q in near:
             v = float(f(q))
-            if not (np.isfinite(v) and abs(v - at) <= CONT_TOL * abs(at)):
+            tol_q = CONT_TOL + 20 * abs(q / pb - 1)  # the functions' own slope: |dln f/dln p| <= ~3 (measured 2.2e-9 at 1e-9)
+            if not (np.isfinite(v) and abs(v - at) <= tol_q * abs(at)):
                 viol.append(V(f"continuity/{name}", f"{name} jumps at the bubble point {pb:.9g}: {v!r} at p={q!r} "
-                              f"vs {at!r} at p_b ({abs(v / at - 1):.3g} relative)", case=case, observed=v,
-                              expected=at, tol=CONT_TOL))
+                              f"vs {at!r} at p_b ({abs(v / at - 1):.3g} relative, allowed {tol_q:.3g})", case=case,
+                              observed=v, expected=at, tol=tol_q))
                 break
     below = np.linspace(15.0, pb, n + 1)[:-1] if pb > 15 else np.array([])
     # the last psi below the bubble point (a 'snap to the bubble point' tolerance would flatten it)
@@ -111,6 +112,34 @@ def evaluate(case):
                       case=case))
     if not (np.all(np.isfinite(mu_a)) and np.all(mu_a > 0)):
         viol.append(V("mu_o/positive", "oil viscosity above the bubble point is not positive and finite", case=case))
+    # the other public undersaturated correlation (Standing's), below its own pole at p - p_b = 18 118 psi
+    for p_ in above[(above > pb) & (above - pb <= 15000.0)][:: max(1, n // 10)]:
+        try:
+            cs_ = float(oil.oil_compressibility_undersat_Standing(T, float(p_), *args))
+        except Exception as e:  # noqa: BLE001
+            viol.append(V("c_o/standing-raises", f"oil_compressibility_undersat_Standing(T={T}, p={p_:.6g}) raises "
+                          f"{type(e).__name__}: {e}", case=case))
+            break
+        if not (np.isfinite(cs_) and cs_ > 0):
+            viol.append(V("c_o/standing-positive", f"oil_compressibility_undersat_Standing(T={T}, p={p_:.6g}) = {cs_!r}", case=case))
+            break
+    # the array forms of the same functions on ONE array that straddles the bubble point (all points used above):
+    # every element equals the scalar call (a mask with a tolerance, or a snap to p_b, shows up just below p_b)
+    if rs_b.size:
+        both = np.concatenate([below, above])
+        for name, fa in (("R_s", oil.solution_gor_Standing), ("B_o", oil.b_o_Standing), ("rho_o", oil.density_Standing)):
+            try:
+                got = np.asarray(fa(T, both.copy(), *args), dtype=float)
+            except Exception as e:  # noqa: BLE001
+                viol.append(V(f"array/{name}", f"{name} on an array straddling the bubble point raises {type(e).__name__}: {e}",
+                              case=case))
+                continue
+            ref = np.array([float(fns[name](float(q))) for q in both])
+            bad = ~(np.abs(got - ref) <= 64 * np.finfo(float).eps * np.abs(ref))
+            if got.shape != ref.shape or bad.any():
+                k = int(np.flatnonzero(bad)[0]) if got.shape == ref.shape else 0
+                viol.append(V(f"array/{name}", f"{name} evaluated on an array differs from the scalar call at p={both[k]!r} "
+                              f"(p_b={pb!r}): {got[k] if got.shape == ref.shape else got.shape!r} vs {ref[k]!r}", case=case))
     return {"violations": viol, "outcome": "oil", "evals": len(below) + len(above) + len(near) * 4,
             "key": (T, api, g, gor)}
 
@@ -158,7 +187,9 @@ def run(ctx):
         "samples": samples_of(cs),
         "oils_with_low_bubble_point_skipped": sum(1 for r in res if r.get("outcome") == "p_b<=50"),
     }
-    return ctx.finish("exploration", cov, ["continuity tolerance 1e-6 relative; inverse relation 1e-8 p_b"])
+    return ctx.finish("exploration", cov, ["continuity tolerance 1e-13 + 20 x relative distance from p_b; inverse relation 1e-8 p_b",
+                                            "oil_compressibility_undersat_Standing is only demanded below its pole at p - p_b = 18 118 psi "
+                                            "(the correlation's own singularity; b_o_Standing uses Spivey's correlation)"])
 
 
 def replay(case):
